@@ -4,8 +4,9 @@ Spec: spec/SSHCert.tla (+ _MC).  TLC (a) model-checks the transcription of CertC
 CheckHostKey / CheckCert (checks in the order of the code) against the property's conjunction over the product
 of field classes (use x key kind x certificate type x authority x principals x requested principal x
 ValidAfter x ValidBefore on the symbolic time order x critical options x supported options x revocation x
-signature class x encoding class of the received bytes), showing the two agree everywhere except two exactly
-delimited regions (ValidBefore in [2^63, 2^64-2]; tolerated non-canonical encodings); (b) emits the cases with
+signature class x encoding class of the received bytes), showing the two agree everywhere except the exactly
+delimited region of tolerated non-canonical encodings (open findings C41-F6a-d; the int64 time window of the code
+before fix 35f0e5b survives only as SSHCert_DocTime.cfg, FixTime = FALSE, an expected counterexample); (b) emits the cases with
 both predictions.  The harness builds each case as a real certificate (SignCert; wire-level re-encoding and
 re-signing for the signed-bytes clause; ssh-keygen -s as amplifier), feeds it through ParsePublicKey to the real
 checkers with a fixed Clock and compares the real decision with the property's conjunction."""
@@ -37,6 +38,12 @@ def run(ctx):
         jobs = [{"cfg": "SSHCert_Quick.cfg", "kw": {"workers": 8}}, {"cfg": "SSHCert_GenQ.cfg", "gen": True}]
         gen = "SSHCert_GenQ.cfg"
     res = par_tlc(ctx, M, jobs)
+    if ctx.thorough:
+        # documentation of the repaired defect C41-T1: the old int64 time window must still contradict the property in the model
+        r = ctx.tlc(M, cfg="SSHCert_DocTime.cfg", workers=4, timeout=900, expect_violation=True, count=False,
+                    note="documentation (FixTime = FALSE, code before 35f0e5b): expected counterexample to TimeIsLiteral; never replayed on the code")
+        if r.violated != "TimeIsLiteral":
+            raise vlib.Infra("SSHCert_DocTime.cfg: TLC no longer finds the counterexample that documents the repaired defect C41-T1 (violated=%r)" % r.violated)
     cases = res[gen].traces
     env = {}
     if ctx.replay:
